@@ -2,7 +2,7 @@ from ..driver import Prop, Suite
 from .. import ringgen, unigen
 
 class C16(Prop):
-    pid = "C16"; prop_file = "C16.v"
+    pid = "C16"; prop_file = ["C16.v", "C13Z.v"]
     rule = ("cases: fill-beyond-capacity / drain cycles and several producers retrying against one consumer on both raw rings (N in {2,4,8}) and both movable Uni channels; "
             "non-trivial = context switch inside a reserve->publish / reserve->release window AND at least one full or empty answer; oracles: justified-full (exactly N can be outstanding), "
             "rejected value never yielded, rejected send = 3 own accesses + 2 per lost recede race, no reservation left at quiescence")
